@@ -2142,8 +2142,15 @@ func ruleCP12(c *Ctx) *rule {
 				if mu, ok := in.(*ssa.MapUpdate); ok && isCacheMapLoad(mu.Map, mapKey) {
 					n++
 					_ = s
-					if len(rl.fi.fn.Blocks) > 0 && len(c.info(f).necessaryGuards(b)) > 0 {
-						r.bad(key, c.ipos(mu), "the cache update is conditional")
+					conditional := len(c.info(f).necessaryGuards(b)) > 0
+					for _, ret := range returnsOf(f) {
+						// every way out of the setter has performed the update
+						if ret.Block() != b && !dominates(b, ret.Block()) {
+							conditional = true
+						}
+					}
+					if conditional {
+						r.bad(key, c.ipos(mu), "the cache update is conditional: some calls of the setter leave the entry as it was (an invalidation that is silently not performed)")
 						n = -100
 					}
 				}
